@@ -8,7 +8,7 @@ func init() {
 		Jobs: func(tier string) []sym.Job {
 			coil, byt := ints(1, 8, 9, 1968), ints(2, 4, 246)
 			ls := append(rng(0, 20), rng(255, 264)...)
-			if tier == "thorough" {
+			if true { // the wider bound costs about 1.5 minutes: run it on every change
 				coil, byt = append(rng(1, 64), 1000, 1967, 1968), append(rng(2, 40), 100, 200, 244, 246)
 				ls = rng(0, 300)
 			}
@@ -24,8 +24,8 @@ func init() {
 			return js
 		},
 		Bounds: map[string]string{
-			"quick":    "every prefix of every TCP request of the 10 constructors (scalars symbolic; FC15 coil counts {1,8,9,1968}; FC16/23 data lengths {2,4,246}); classifier/dispatcher agreement on every byte string of length {0..20, 255..264} (length field, function code, protocol id all symbolic)",
-			"thorough": "FC15 coil counts 1..64,1000,1967,1968; FC16/23 data lengths 2..40,100,200,244,246; agreement on lengths 0..300",
+			"quick":    "every prefix of every TCP request of the 10 constructors (scalars symbolic; FC15 coil counts 1..64,1000,1967,1968; FC16/23 data lengths 2..40,100,200,244,246); classifier/dispatcher agreement on every byte string of length 0..300 (length field, function code, protocol id all symbolic)",
+			"thorough": "same as quick (the bound is the claim)",
 		},
 		Outside:   []string{"frames longer than 300 bytes"},
 		MinCovers: []string{"encoded", "classified", "complete-frame", "dispatcher-rejects", "unsupported-function", "not-a-frame"},
